@@ -1,7 +1,7 @@
 P = {
     "gens": ["C15report"],
     "theorems": ["C15_truthful", "C15_events_sound", "C15_shape", "C15_no_report_about_admin_record", "C15_no_report_to_self",
-                 "C15_no_cascade", "C15_report_bundle_reports_to_self", "C15_checker_sound", "C15_model_passes_checker"],
+                 "C15_no_cascade", "C15_report_bundle_reports_to_self", "C15_checker_sound", "C15_model_passes_checker", "C15_wire_names_exact_id", "C15_wire_roundtrip"],
     "rule": "real routing.Core (epidemic) with three scripted mock convergence senders, a mock agent with two endpoints and a "
             "registered CLA endpoint; one bundle per case (built as a struct, so ill-formed flag combinations reach the Core too): "
             "(a) all 2^6 combinations of {reception, forward, delivery, deletion, status-time, administrative-record} x fragment/whole "
@@ -13,8 +13,12 @@ P = {
             "re-received (duplicate); (b) report-to in {peer node, elsewhere, node of another peer, node ID, other endpoint of the node, "
             "agent endpoints (2), CLA endpoint, dtn:none, ipn} x receiver in {node ID, dtn:none, agent endpoint, CLA endpoint, foreign}; "
             "(c) receive with nobody to forward to, then a peer appears (retry from the store), with and without the lifetime passing "
-            "in between. Observed: the status reports sent (parsed from the wire bytes given to the mock CLAs, via "
-            "Bundle.AdministrativeRecord): asserted positions, times (bracketed by the clock before/after the step), reason, RefBundle, "
+            "in between (whole and fragment, 6 flag sets). Observed: the status reports sent: the report bundle is parsed from the "
+            "wire bytes given to the mock CLAs, its payload (the administrative record) goes into the case as BYTES and is decoded "
+            "by the model's reference decoder (AuxCbor.dec_admrec) in the driver - status items, reason and the reference bundle "
+            "ID (source, creation time, sequence number, fragment flag, offset, total length) judged by the checker come from "
+            "there; what the implementation's own decoder reads is only cross-checked (a difference is a mismatch); fragments "
+            "have offset != total length != 0 (evidence tags fragment-report-<kind>[-retry]): asserted positions, times (bracketed by the clock before/after the step), reason, RefBundle, "
             "flags/source/destination/lifetime of the report bundle; sends of the bundle with outcomes; agent hand-overs; store "
             "membership afterwards. distinct = distinct case bodies",
     "assumptions": [
@@ -26,7 +30,8 @@ P = {
         "every send outcome; theorems hold for every oracle",
     ],
     "trusted_base": [
-        "status report CBOR encoding/decoding (the reports are compared as decoded fields; C17 covers the codec)",
+        "the bundle codec that unwraps the report bundle (C17); the status report itself is decoded by the model's decoder "
+        "AuxCbor.dec_admrec (proved inverse of the model's encoder, tied to Go by C17's correspondence)",
         "store / IdKeeper behaviour (two reports created in the same millisecond share a store key until transmit renumbers them: "
         "the harness therefore always keeps a peer up that takes the reports immediately)",
         "checkAdministrativeRecord's side effects (deleting the bundle a 'delivered' report refers to) are not modelled",
